@@ -27,6 +27,7 @@ func init() {
 			"R1": "decision model (classify.go): both classifiers are enumerated into paths = conjunctions of signed atoms (err==nil, errors.Is(err,X), errors.As(err,*T), strings.Contains(lower(err.Error()),p), table scans, IsPermanentError(err)) with boolean helpers inlined; all paths consistent with {nil} return false in both; in IsTransientError all paths consistent with {!nil, IsPermanentError} return false and all consistent with {!nil, !IsPermanentError} return true",
 			"R2": "in IsPermanentError all paths consistent with {!nil, A} return false for A in errors.Is(err, context.Canceled), errors.Is(err, context.DeadlineExceeded), errors.As(err, **TimeoutError) (the atoms exist only for the unwrap-aware forms); all paths consistent with {!nil, none of those, errors.Is(err, S)} return true for S in ErrInvalidConfig / ErrPermissionDenied / ErrBucketNotFound",
 			"R3": "patterns and sentinels read off the decision model (each confirmed to force `true`, and their absence to force `false`), lower-case, vs. constants extracted from the loaded nats.go (ErrKeyExists message + code, ErrKeyNotFound, ErrTimeout, ErrNoResponders, ErrConnectionClosed, APIError format) and nats-server (description of error 10071)",
+			"R5": "every error returned by a method of a type implementing KeyValue (the adapters around the NATS client and the mock) is nil or the error value returned by a call on the wrapped object, unchanged: text added by the adapter (operation, key = the group name) would take part in the substring classification",
 			"R4": "heartbeat loop: IsPermanentError(updateErr) is tested on the failure edge; RetryWithBackoff: IsPermanentError(err) true edge returns",
 		},
 	})
@@ -156,6 +157,9 @@ func checkC15(c *Ctx) {
 			c.viol("R4", "RetryWithBackoff stops on a permanent error", firstInstr(rb), "RetryWithBackoff never consults IsPermanentError")
 		}
 	}
+	// R5: the classifiers judge the client's errors as the client produced them
+	adapterErrorIdentityRule(c, "R5")
+
 }
 
 // permanentPatterns reads the decision model of IsPermanentError: the message fragments and the
@@ -404,5 +408,80 @@ func natsConflictRule(c *Ctx, rule string) {
 	for _, name := range []string{"ErrTimeout", "ErrNoResponders", "ErrConnectionClosed"} {
 		p := matches(k[name])
 		c.check(p == "", rule, "client's "+name+" stays transient", firstInstr(m.libFunc("IsPermanentError")), "text %q matches permanent pattern %q", k[name], p)
+	}
+}
+
+
+// adapterErrorIdentityRule (C15-R5): "faithful to the NATS client" presupposes that the errors
+// reach the classifiers as the client made them. The classification is by text: an adapter that
+// wraps the client's error with words of its own - or with the key, which is the user's group
+// name - changes the class of every error whose added text contains a pattern.
+func adapterErrorIdentityRule(c *Ctx, rule string) {
+	m := c.M
+	n := 0
+	for _, t := range m.implementers(m.KVIface) {
+		for _, meth := range []string{"Create", "Update", "Get", "Delete", "Watch"} {
+			f := m.methodOf(t, meth)
+			if f == nil || len(f.Params) == 0 {
+				continue
+			}
+			// calls on a field of the receiver
+			var inner []*ssa.Call
+			eachInstr(f, func(in ssa.Instruction) {
+				call, ok := in.(*ssa.Call)
+				if !ok {
+					return
+				}
+				var recv ssa.Value
+				if call.Call.IsInvoke() {
+					recv = call.Call.Value
+				} else if sc := call.Call.StaticCallee(); sc != nil && sc.Signature.Recv() != nil && len(call.Call.Args) > 0 {
+					recv = call.Call.Args[0]
+				}
+				if recv != nil && recvIsFieldOf(recv, f.Params[0]) {
+					inner = append(inner, call)
+				}
+			})
+			res := f.Signature.Results()
+			for i := 0; i < res.Len(); i++ {
+				if !isErrorType(res.At(i).Type()) {
+					continue
+				}
+				n++
+				okAll := true
+				var bad ssa.Instruction
+				for _, b := range liveBlocks(f) {
+					ret, ok := b.Instrs[len(b.Instrs)-1].(*ssa.Return)
+					if !ok || b == f.Recover {
+						continue
+					}
+					v := returnValue(ret, i)
+					if k, isC := v.(*ssa.Const); isC && k.Value == nil {
+						continue
+					}
+					same := false
+					for _, call := range inner {
+						sig := call.Call.Signature().Results()
+						for j := 0; j < sig.Len(); j++ {
+							if isErrorType(sig.At(j).Type()) && errIdentity(v, call, j, 0) {
+								same = true
+							}
+						}
+					}
+					if !same {
+						okAll, bad = false, ret
+					}
+				}
+				key := fmt.Sprintf("%s.%s returns the wrapped object's error unchanged", t.Obj().Name(), meth)
+				if okAll {
+					c.ok(rule, key, firstInstr(f), "every returned error is nil or the error result of a call on the wrapped object")
+				} else {
+					c.viol(rule, key, bad, "the error returned here (%s) is not the error value of a call on the wrapped object: IsPermanentError / IsTransientError classify by the text of err.Error(), which now contains the adapter's additions (an operation name, the key - i.e. the user's group name: a group called \"authentication-service\" or \"invalidation-leader\" turns the client's time-out, no-responders and connection-closed errors permanent: demotion after one failed heartbeat, no retry)", clip(m.Sym.Of(returnValue(bad.(*ssa.Return), i)).String(), 100))
+				}
+			}
+		}
+	}
+	if n < 4 {
+		c.undecided(rule, "instance-floor", nil, "only %d error-returning adapter methods found", n)
 	}
 }
